@@ -119,7 +119,7 @@ func init() {
 	worlds["fsworld"].probes = map[string][]string{"*": {"traces_validated_against_real_fs", "fs.rename:EXDEV", "fs.write:ENOSPC", "fs.read:EIO", "fs.unlink:EPERM", "fs.truncate:EIO"}}
 	propWorld["C18"] = "fsworld"
 	worlds["httpworld"].probes = map[string][]string{
-		"C05": {"panic_unwinds_through_servehttp", "route_with_more_params_added_after_store_pooled", "pool.miss_with_items", "pool.stale_pick"},
+		"C05": {"nested_request", "panic_unwinds_through_servehttp", "route_with_more_params_added_after_store_pooled", "pool.miss_with_items", "pool.stale_pick"},
 		"C15": {"panic_with_long_stack_trace", "zero_length_first_write", "abort_handler_panic", "panic_before_writing", "panic_after_status", "panic_after_partial_body", "client.write_error", "pool.stale_pick"}}
 	propWorld["C05"] = "httpworld"
 	propWorld["C15"] = "httpworld"
